@@ -7,11 +7,16 @@ training data, and the store of live cache entries (slot ↦ the versions the en
   * slot 0  `prediction_strategy`  (attribute of `ExactGP`; absent = `None`)
   * slots 1…11  `_memoize_cache` names of the strategy object (`@cached(name=…)`)
   * slots 12, 13  eval-mode attribute caches of kernels (`_cached_kernel_mat`, `_cached_kernel_inv_root`)
+  * slots 14, 15  the *other representation* of `covar_cache` / `fantasy_covar_cache` of the interpolated strategy:
+    the memo value is a pair `(inside_root, None)` (built under `fast_pred_samples`) or `(None, root)`; one memo
+    name, two representations, at most one live — slot 2 / 6 = `(None, root)`, slot 14 / 15 = `(inside_root, None)`
 
-What each public operation *clears* is not written here: the transition function consults a `Table`, and
-the table that the driver runs and the theorems are about is `Gen.CacheTable.table`, regenerated from the
-Python source by `harness/translate/g2_cache_table.py` on every run.  What a prediction *reads/creates*
-(per strategy class and settings cell) is written here by hand and validated by the correspondence check.
+What each public operation *clears* and what a prediction *reads / creates / pops* (per strategy class and
+settings cell: `Table.access`, a list of `MemoOp`s) is not written here: the transition function consults a
+`Table`, and the table that the driver runs and the theorems are about is `Gen.CacheTable.table`, regenerated
+from the Python source by `harness/translate/g2_cache_table.py` on every run.  The hand-written counterpart
+`accessModel` is the specification the generated access function is proved equal to (`Props/C03.lean`).
+What a *variational* call reads (`varReads`) is written here by hand and validated by the correspondence check.
 -/
 
 namespace CacheSM
@@ -23,7 +28,8 @@ def slotNames : List String :=
   ["prediction_strategy", "mean_cache", "covar_cache", "interp_inner_prod", "interp_response_cache",
    "fantasy_mean_cache", "fantasy_covar_cache", "cholesky_factor", "prior_distribution_memo",
    "variational_distribution_memo", "pseudo_points_memo", "amortized_exact_gp",
-   "_cached_kernel_mat", "_cached_kernel_inv_root"]
+   "_cached_kernel_mat", "_cached_kernel_inv_root",
+   "covar_cache[fast_pred_samples]", "fantasy_covar_cache[fast_pred_samples]"]
 
 def sStrat : Nat := 0
 def sMean : Nat := 1
@@ -39,9 +45,30 @@ def sPseudo : Nat := 10
 def sAmortized : Nat := 11
 def sKMat : Nat := 12
 def sKInvRoot : Nat := 13
+/-- `covar_cache` holding `(inside_root, None)`, the representation built under `fast_pred_samples` -/
+def sCovarS : Nat := 14
+/-- `fantasy_covar_cache` holding `(inside_root, None)` -/
+def sFantCovarS : Nat := 15
 
 /-- names living in a strategy object's `_memoize_cache` -/
-def isMemo (s : Nat) : Bool := 1 ≤ s && s ≤ 11
+def isMemo (s : Nat) : Bool := (1 ≤ s && s ≤ 11) || s == 14 || s == 15
+
+/-- the memo *name* a slot belongs to (the two representations of one name share the `@cached` declaration) -/
+def baseSlot (s : Nat) : Nat := if s == sCovarS then sCovar else if s == sFantCovarS then sFantCovar else s
+
+/-- slot holding the representation of `covar_cache` / `fantasy_covar_cache` that a call under
+`fast_pred_samples = fps` asks for -/
+def covarSlot (fps : Bool) : Nat := if fps then sCovarS else sCovar
+def fantCovarSlot (fps : Bool) : Nat := if fps then sFantCovarS else sFantCovar
+
+/-- prediction-relevant settings; ids = bit positions of a settings cell (`Cell.ofMask`) -/
+def settingNames : List String :=
+  ["fast_pred_var", "fast_pred_samples", "lazily_evaluate_kernels", "max_cholesky_size", "detach_test_caches",
+   "skip_posterior_variances", "max_eager_kernel_size", "trace_mode"]
+
+def gFastPredVar : Nat := 0
+def gFastPredSamples : Nat := 1
+def gDetach : Nat := 4
 
 def classNames : List String :=
   ["Module", "ExactGP", "DefaultPredictionStrategy", "InterpolatedPredictionStrategy", "RFFPredictionStrategy",
@@ -60,6 +87,89 @@ def cUnwhitened : Nat := 8
 def cIPK : Nat := 9
 def cGrid : Nat := 10
 def cGridInterp : Nat := 11
+
+/-! ### Settings cells -/
+
+/-- The settings in force at a prediction: one Boolean per prediction-relevant setting (`settingNames`, in this
+order), plus `degraded`, which marks the two *accuracy-degrading* variants whose own output is not part of the
+property but which fill caches like their exact counterparts (`degradedRoot`, `degradedCG` below). -/
+structure Cell where
+  /-- `fast_pred_var()` -/
+  fpv : Bool := false
+  /-- `fast_pred_samples()` -/
+  fps : Bool := false
+  /-- `lazily_evaluate_kernels(False)` -/
+  eager : Bool := false
+  /-- `max_cholesky_size(0)`: Cholesky factors are not formed (CG / Lanczos at tight tolerance) -/
+  noCholesky : Bool := false
+  /-- `detach_test_caches(False)` -/
+  keepGraph : Bool := false
+  /-- `skip_posterior_variances()` -/
+  skip : Bool := false
+  /-- `max_eager_kernel_size(0)`: the joint covariance is sliced lazily -/
+  lazySlice : Bool := false
+  /-- `trace_mode(True)` -/
+  trace : Bool := false
+  /-- with `noCholesky`: rank-2 Lanczos root behind `fast_pred_var`, resp. CG stopped after two iterations -/
+  degraded : Bool := false
+  deriving DecidableEq, Repr
+
+namespace Cell
+
+def default : Cell := {}
+def fastPredVar : Cell := { fpv := true }
+def fastPredSamples : Cell := { fps := true }
+def fastPredBoth : Cell := { fpv := true, fps := true }
+def eagerKernels : Cell := { eager := true }
+def cg : Cell := { noCholesky := true }
+def noDetach : Cell := { keepGraph := true }
+def skipVar : Cell := { skip := true }
+def lazyJoint : Cell := { lazySlice := true }
+def traceMode : Cell := { trace := true }
+/-- `fast_pred_var(num_probe_vectors=1)` + `max_cholesky_size(0)` + `max_root_decomposition_size(2)`
+(a truncated Lanczos root in `covar_cache`) -/
+def degradedRoot : Cell := { fpv := true, noCholesky := true, degraded := true }
+/-- `max_cholesky_size(0)` + CG stopped after two iterations -/
+def degradedCG : Cell := { noCholesky := true, degraded := true }
+
+/-- bit `i` of the mask = setting `i` of `settingNames`; bit 8 = `degraded` -/
+def ofMask (m : Nat) : Cell :=
+  { fpv := m.testBit 0, fps := m.testBit 1, eager := m.testBit 2, noCholesky := m.testBit 3, keepGraph := m.testBit 4,
+    skip := m.testBit 5, lazySlice := m.testBit 6, trace := m.testBit 7, degraded := m.testBit 8 }
+
+def bools : List Bool := [false, true]
+
+/-- every settings cell (512) -/
+def all : List Cell :=
+  bools.flatMap fun a => bools.flatMap fun b => bools.flatMap fun c => bools.flatMap fun d => bools.flatMap fun e =>
+  bools.flatMap fun f => bools.flatMap fun g => bools.flatMap fun h => bools.flatMap fun i => [⟨a, b, c, d, e, f, g, h, i⟩]
+
+end Cell
+
+/-! ### What a prediction does to the memo table -/
+
+/-- one access of a prediction strategy to its `_memoize_cache` -/
+inductive MemoOp where
+  /-- `self.<name>` of a `@cached` property / method: return the entry, computing and storing it when absent -/
+  | read (slot : Nat)
+  /-- the same for a memo name with two representations: `slot` holds the one the current settings ask for, `alt`
+      the other one.  `revalidated`: the reader tests which representation it was handed and, on the wrong one,
+      `pop_from_cache`s the entry and reads again (so it is recomputed under the current settings);
+      otherwise it uses whatever is there. -/
+  | readKeyed (slot alt : Nat) (revalidated : Bool)
+  /-- `pop_from_cache(self, name)` -/
+  | pop (slot : Nat)
+  deriving DecidableEq, Repr
+
+/-- a read of a two-representation entry that uses whatever representation it is handed -/
+def MemoOp.unrevalidated : MemoOp → Bool
+  | .readKeyed _ _ false => true
+  | _ => false
+
+/-- the same access without the re-validation (used to show that the re-validation is needed) -/
+def MemoOp.dropRevalidation : MemoOp → MemoOp
+  | .readKeyed s alt _ => .readKeyed s alt false
+  | op => op
 
 /-! ### The invalidation table (schema; the instance is generated) -/
 
@@ -84,6 +194,13 @@ structure CachedDecl where
   /-- the computing method registers `clear_cache_hook(self)` on the result's `grad_fn`
       (after `if settings.detach_test_caches.on(): x = x.detach()`) -/
   hooked : Bool
+  /-- the computed value exists in two representations selected by a setting (id in `settingNames`): the body
+      returns `(v, None)` when the setting is on and `(None, w)` when it is off -/
+  variantOn : Option Nat
+  /-- other memo names the computing body reads (and thereby creates) -/
+  deps : List Nat
+  /-- every setting the computing body (with the un-cached helpers it calls) tests -/
+  bodySettings : List Nat
   deriving DecidableEq, Repr
 
 /-- an attribute cache `self._cached_x` of a kernel -/
@@ -129,6 +246,18 @@ structure Table where
   /-- `DefaultPredictionStrategy.exact_predictive_covar` reads `covar_cache`?  arguments: fast_pred_var,
       skip_posterior_variances, `observation_nan_policy != "ignore"` -/
   defaultReadsCovarCache : Bool → Bool → Bool → Bool
+  /-- classes whose `__init__` registers `inducing_points` from a copy (`.clone()`) of the tensor it is given: two
+      models constructed from the same tensor do not share parameter storage -/
+  ctorClones : List Nat
+  /-- what `exact_prediction` of a strategy class (class id) does to the memo table, in order, derived from the
+      call graph `exact_prediction → exact_predictive_mean / exact_predictive_covar → @cached names,
+      pop_from_cache, super()` and the settings guards on the way.  arguments: class, `self.uses_wiski`,
+      `observation_nan_policy != "ignore"`, settings cell -/
+  access : Nat → Bool → Bool → Cell → List MemoOp
+  /-- what `get_fantasy_strategy` of a strategy class reads from the memo table of the source strategy -/
+  fantasyAccess : Nat → Cell → List MemoOp
+  /-- memo names `get_fantasy_strategy` puts into the new strategy object (`add_to_cache(fant_strat, name, …)`) -/
+  fantasyBorn : Nat → List Nat
   /-- `get_fantasy_model` raises when `prediction_strategy is None` before touching anything -/
   fantasyNeedsStrategy : Bool
   /-- attributes (0 strategy, 1 train_inputs, 2 train_targets, 3 likelihood) set to `None` around the `deepcopy` … -/
@@ -159,26 +288,6 @@ inductive Kind where
 
 def Kind.isExact : Kind → Bool
   | .exact | .kiss | .sgpr => true
-  | _ => false
-
-/-- settings cells of a prediction: eight exact-path cells, and two *accuracy-degrading* cells whose own output is
-not part of the property but which fill caches like their exact counterparts:
-`degradedRoot` = `fast_pred_var(num_probe_vectors=1)` + `max_cholesky_size(0)` + `max_root_decomposition_size(2)`
-(a truncated Lanczos root in `covar_cache`), `degradedCG` = `max_cholesky_size(0)` + CG stopped after two iterations. -/
-inductive Cell where
-  | default | fastPredVar | eagerKernels | cg | noDetach | skipVar | degradedRoot | degradedCG
-  | lazyJoint     -- `max_eager_kernel_size(0)`: the joint covariance is sliced lazily (exact path, reads as default)
-  | traceMode     -- `trace_mode(True)`: generic kernel path, dense assembly in the variational strategy (exact path)
-  deriving DecidableEq, Repr
-
-/-- `settings.fast_pred_var.on()` -/
-def Cell.fpv : Cell → Bool
-  | .fastPredVar | .degradedRoot => true
-  | _ => false
-
-/-- `max_cholesky_size(0)`: Cholesky factors are not formed -/
-def Cell.noCholesky : Cell → Bool
-  | .cg | .degradedRoot | .degradedCG => true
   | _ => false
 
 structure Entry where
@@ -240,7 +349,7 @@ def varClass : Kind → Nat
 /-- every slot a model of this kind can ever hold -/
 def slotsOf : Kind → List Nat
   | .exact => [sStrat, sMean, sCovar]
-  | .kiss => [sStrat, sMean, sCovar, sInterpInner, sInterpResp, sKMat]
+  | .kiss => [sStrat, sMean, sCovar, sCovarS, sInterpInner, sInterpResp, sKMat]
   | .sgpr => [sStrat, sMean, sCovar, sKMat, sKInvRoot]
   | .svgp => [sChol, sPrior, sVarDist, sPseudo, sAmortized]
   | .usvgp => [sChol, sPrior, sVarDist, sPseudo, sAmortized]
@@ -292,11 +401,63 @@ structure Answer where
 def stratClassOf (k : Kind) (isDefault : Bool) : Nat :=
   if isDefault then cDefault else kernelStrategy k
 
-/-- memo names read by `exact_prediction` of a strategy class under a settings cell
-(`observation_nan_policy` stays at its default `"ignore"` in the settings alphabet) -/
+/-- slots popped before the reads of a call (`pop_from_cache`; the re-validation of a two-representation entry
+pops the *other* representation) -/
+def popped (ops : List MemoOp) : List Nat :=
+  ops.filterMap fun
+    | .read _ => none
+    | .readKeyed _ alt rv => if rv then some alt else none
+    | .pop s => some s
+
+/-- slots a call reads (and creates when absent), given the store after the pops.  A reader that does not
+re-validate a two-representation entry uses the other representation when that is the one that is live. -/
+def effReads (ops : List MemoOp) (st : Store) : List Nat :=
+  ops.filterMap fun
+    | .read s => some s
+    | .readKeyed s alt rv => some (if !rv && (st alt).isSome && (st s).isNone then alt else s)
+    | .pop _ => none
+
+/-- **Specification** of `Table.access` (hand-written; `Props/C03.lean` proves the generated function equal to it
+on every class, flag and settings cell).
+  * default strategy: `mean_cache` always; `covar_cache` iff `fast_pred_var` and neither `skip_posterior_variances`
+    nor a non-default `observation_nan_policy`;
+  * interpolated strategy (KISS-GP): `mean_cache` (`fantasy_mean_cache` on a WISKI fantasy strategy) always;
+    `covar_cache` (`fantasy_covar_cache`) iff (`fast_pred_var` or `fast_pred_samples`) and not
+    `skip_posterior_variances` — in the representation `fast_pred_samples` asks for, the other one being popped;
+  * RFF strategy: `mean_cache`; `covar_cache` unless `skip_posterior_variances`;
+  * SGPR strategy: `mean_cache` and `covar_cache` always. -/
+def accessModel (cls : Nat) (wiski nan : Bool) (c : Cell) : List MemoOp :=
+  if cls == cSGPR then [.read sMean, .read sCovar]
+  else if cls == cRFF then .read sMean :: (if c.skip then [] else [.read sCovar])
+  else if cls == cInterp then
+    .read (if wiski then sFantMean else sMean) ::
+      (if (c.fpv || c.fps) && !c.skip then
+        [if wiski then .readKeyed (fantCovarSlot c.fps) (fantCovarSlot (!c.fps)) true
+         else .readKeyed (covarSlot c.fps) (covarSlot (!c.fps)) true]
+       else [])
+  else if cls == cDefault then .read sMean :: (if c.fpv && !c.skip && !nan then [.read sCovar] else [])
+  else []
+
+/-- specification of `Table.fantasyAccess`: the default strategy updates `mean_cache` (the root decompositions are
+memoised on the train-train operator, not on the strategy); the interpolated strategy updates the two WISKI caches -/
+def fantasyAccessModel (cls : Nat) (_c : Cell) : List MemoOp :=
+  if cls == cInterp then [.read sInterpInner, .read sInterpResp]
+  else if cls == cDefault then [.read sMean]
+  else []
+
+/-- specification of `Table.fantasyBorn`: memo names the fantasy strategy is born with -/
+def fantasyBornModel (cls : Nat) : List Nat :=
+  if cls == cInterp then [sInterpInner, sInterpResp]
+  else if cls == cDefault then [sMean, sCovar]
+  else []
+
+/-- strategy classes of the vocabulary -/
+def strategyClasses : List Nat := [cDefault, cInterp, cRFF, cSGPR]
+
+/-- memo slots read by `exact_prediction` of a strategy class under a settings cell, in a store where nothing is
+live (`observation_nan_policy` stays at its default `"ignore"` in the settings alphabet) -/
 def memoReads (T : Table) (cls : Nat) (c : Cell) : List Nat :=
-  if cls == cSGPR then [sMean, sCovar]
-  else if T.defaultReadsCovarCache c.fpv (c == .skipVar) false then [sMean, sCovar] else [sMean]
+  effReads (T.access cls false false c) (fun _ => none)
 
 /-- memo names read by a (non-prior) call of a variational strategy -/
 def varReads (k : Kind) (training : Bool) (c : Cell) : List Nat :=
@@ -329,13 +490,13 @@ def callKernelOnly (T : Table) (s : State) (training : Bool) : State × Answer :
 /-- `if self.prediction_strategy is None [or built under the other lazily_evaluate_kernels setting]:` -/
 def needsNewStrategy (T : Table) (s : State) (c : Cell) : Bool :=
   (s.store sStrat).isNone || !T.strategyGuardedByIsNone ||
-    (T.strategyKeyedOnLazy && s.stratLazy != (c != .eagerKernels))
+    (T.strategyKeyedOnLazy && s.stratLazy != !c.eager)
 
 /-- the state once a strategy object exists.  An eagerly evaluated train covariance is no
 `LazyEvaluatedKernelTensor`, so then the kernel is not asked for its strategy class. -/
 def withStrategy (T : Table) (s : State) (c : Cell) : State :=
   if needsNewStrategy T s c then
-    { s with stratDefault := s.kind == .exact || !(c != .eagerKernels), stratLazy := c != .eagerKernels,
+    { s with stratDefault := s.kind == .exact || c.eager, stratLazy := !c.eager,
              store := fun sl => if sl == sStrat then some (newEntry s false) else if isMemo sl then none else s.store sl }
   else s
 
@@ -343,9 +504,11 @@ def withStrategy (T : Table) (s : State) (c : Cell) : State :=
 def callPosterior (T : Table) (s : State) (c : Cell) : State × Answer :=
   let s0 := withStrategy T s c
   let cls := stratClassOf s0.kind s0.stratDefault
-  let reads := memoReads T cls c
+  let ops := T.access cls false false c
+  let st0 := clearBy ((popped ops).map .delAttr) s0.store
+  let reads := effReads ops st0
   let attrs := attrsActive T s0.kind false
-  let st := touchAll (touchAll s0.store (fun sl => newEntry s (c == .noDetach && T.hookedSlot cls sl)) reads)
+  let st := touchAll (touchAll st0 (fun sl => newEntry s (c.keepGraph && T.hookedSlot cls (baseSlot sl))) reads)
               (fun _ => newEntry s false) attrs
   ({ s0 with store := st }, ⟨true, cls, s.pv, s.dv, usedOf s st (sStrat :: reads ++ attrs)⟩)
 
@@ -430,10 +593,10 @@ def setMode (T : Table) (s : State) (mode : Bool) : State :=
   { s with training := mode,
            store := if T.trainClears s.training mode then clearBy (allClearEffects T s.kind) s.store else s.store }
 
-/-- slots the source reads while building a fantasy model -/
-def fantasyReads (s : State) : List Nat :=
-  if s.kind.isExact then
-    (if stratClassOf s.kind s.stratDefault == cInterp then [sInterpInner, sInterpResp] else [sMean])
+/-- slots the source reads while building a fantasy model (exact GPs: `get_fantasy_strategy` of the live strategy
+class, from the table) -/
+def fantasyReads (T : Table) (s : State) : List Nat :=
+  if s.kind.isExact then effReads (T.fantasyAccess (stratClassOf s.kind s.stratDefault) .default) s.store
   else [sVarDist, sPseudo, sAmortized]
 
 /-- does the real code accept `get_fantasy_model` in this state? -/
@@ -446,7 +609,7 @@ def fantasyAccepts (T : Table) (s : State) : Bool :=
 a new data version — whose strategy already holds the updated caches. -/
 def fantasyModel (s : State) : State :=
   let e : Entry := ⟨s.pv, s.dv + 1, false⟩
-  let wiski := s.kind.isExact && stratClassOf s.kind s.stratDefault == cInterp
+  let born := fantasyBornModel (if s.kind.isExact then stratClassOf s.kind s.stratDefault else cDefault)
   { kind := if s.kind.isExact then s.kind else .exact,
     training := if s.kind.isExact then s.training else false,
     hasData := true, pv := s.pv, dv := s.dv + 1,
@@ -454,9 +617,7 @@ def fantasyModel (s : State) : State :=
     stratLazy := if s.kind.isExact then s.stratLazy else true,
     pendingConversion := false,
     store := fun sl =>
-      if sl == sStrat then some e
-      else if wiski then (if sl == sInterpInner || sl == sInterpResp then some e else none)
-      else (if sl == sMean || sl == sCovar then some e else none) }
+      if sl == sStrat then some e else if born.contains sl then some e else none }
 
 def step (T : Table) (s : State) : Op → Out
   | .predict c => let r := call T s c false; { next := r.1, answer := some r.2 }
@@ -480,7 +641,7 @@ def step (T : Table) (s : State) : Op → Out
                          store := if T.loadClears then clearBy (allClearEffects T s.kind) s.store else s.store } }
   | .fantasy .ok =>
       if fantasyAccepts T s then
-        let st := touchAll s.store (fun _ => newEntry s false) (fantasyReads s ++ (if s.kind.isExact then attrsActive T s.kind s.training else []))
+        let st := touchAll s.store (fun _ => newEntry s false) (fantasyReads T s ++ (if s.kind.isExact then attrsActive T s.kind s.training else []))
         { next := { s with store := st }, fantasy := some (fantasyModel s) }
       else { next := s }
   | .fantasy .rejectedEarly => { next := s }
@@ -508,6 +669,22 @@ def run (T : Table) : State → List Op → State × List Answer
       let o := step T s op
       let r := run T o.next ops
       (r.1, (match o.answer with | some a => [a] | none => []) ++ r.2)
+
+/-! ### Two objects -/
+
+/-- A history over two model objects constructed from the same argument tensors: every op is applied to the first
+(`false`) or to the second (`true`) object.  In the model the two objects share no state — for the real objects that
+is the statement that constructors copy the tensors they turn into parameters (`Table.ctorClones`) and that no
+operation writes into its argument tensors; both are checked by the two-object correspondence. -/
+def run2 (T : Table) : State × State → List (Bool × Op) → (State × State) × List (Bool × Answer)
+  | p, [] => (p, [])
+  | p, (w, op) :: ops =>
+      let o := step T (if w then p.2 else p.1) op
+      let r := run2 T (if w then (p.1, o.next) else (o.next, p.2)) ops
+      (r.1, (match o.answer with | some a => [(w, a)] | none => []) ++ r.2)
+
+/-- the ops of a two-object history that were applied to the object `w` -/
+def opsOf (w : Bool) (ops : List (Bool × Op)) : List Op := (ops.filter (·.1 == w)).map (·.2)
 
 /-! ### The specification side: what a freshly constructed model would answer -/
 
